@@ -373,10 +373,12 @@ func Mixed() *TextSet {
 func NumDocs() *TextSet {
 	return memoize("NumDocs", func() *TextSet {
 		negZero := math.Copysign(0, -1)
-		nums := []V{0.0, negZero, 1e21, 0.30000000000000004, 0.3, 9007199254740992.0, 9007199254740993.0, 1e-7, -1.5, 1.0, 100.0}
+		nums := []V{0.0, negZero, 1e21, 0.30000000000000004, 0.3, 9007199254740992.0, 9007199254740993.0, 1e-7, -1.5, 1.0, 100.0,
+			9007199254740994.0, 1e19, 2e19, 9223372036854775807.0, 18446744073709551616.0, 1700000000000.0, 1700000000001.0, 1e-10, 2e-10, 1e-12}
 		var out []V
 		for _, x := range nums {
-			out = append(out, x, []interface{}{x}, map[string]interface{}{"a": x}, []interface{}{1.0, x, 1.0}, map[string]interface{}{"a": []interface{}{x, x}})
+			out = append(out, x, []interface{}{x}, map[string]interface{}{"a": x}, []interface{}{1.0, x, 1.0}, map[string]interface{}{"a": []interface{}{x, x}},
+				map[string]interface{}{"a": map[string]interface{}{"n": x}}, []interface{}{map[string]interface{}{"n": x}})
 		}
 		for _, x := range nums[:6] {
 			for _, y := range nums[:6] {
@@ -390,7 +392,8 @@ func NumDocs() *TextSet {
 // StrDocs: documents whose string values need escaping in JSON, YAML or the diff text.
 func StrDocs() *TextSet {
 	return memoize("StrDocs", func() *TextSet {
-		strs := []V{"", "a\nb", "\"q\"", "\u00e9", "\U0001F600", " lead", "trail ", "- x", "+ y", "@ z", "^ w", "[", "]", "true", "1", "null", "a\\b", "\t", "<&>"}
+		strs := []V{"", "a\nb", "\"q\"", "\u00e9", "\U0001F600", " lead", "trail ", "- x", "+ y", "@ z", "^ w", "[", "]", "true", "1", "null", "a\\b", "\t", "<&>",
+			"50%", "100%d done %s", "%!f(MISSING)", "\\u003c", "a \\u003cb\\u003e \\u0026", "http://example.com/a/b", strings.Repeat("z", 70000)}
 		var out []V
 		for i, x := range strs {
 			out = append(out, x, []interface{}{x}, map[string]interface{}{"k": x})
@@ -436,6 +439,24 @@ func KeyedStr() *TextSet {
 // objects of 9..40 keys - Go maps change their iteration behaviour above 8 entries -, nesting
 // depth 12 and 25, strings of 1000 characters, 20 keyed members) and simple variants of each,
 // so that a size threshold or "fast path for big inputs" cannot hide behind the small universes.
+// Huge: lists whose LCS table exceeds 2^20 cells and bags with more than 1024 distinct members.
+func Huge() *TextSet {
+	return memoize("Huge", func() *TextSet {
+		seq := func(from, to int) []interface{} {
+			a := make([]interface{}, 0, to-from)
+			for i := from; i < to; i++ {
+				a = append(a, float64(i))
+			}
+			return a
+		}
+		a := seq(0, 1100)
+		cut := append(append([]interface{}{}, a[:550]...), a[551:]...)
+		chg := append([]interface{}{}, a...)
+		chg[3] = "x"
+		return NewTextSet([]V{a, cut, chg, seq(0, 600), seq(600, 1200)})
+	})
+}
+
 func Large() *TextSet {
 	return memoize("Large", func() *TextSet {
 		var out []V
@@ -509,6 +530,80 @@ func Large() *TextSet {
 		}
 		long := strings.Repeat("x", 1000)
 		out = append(out, long, long[:999]+"y", []interface{}{long, "s"}, map[string]interface{}{"s": long[:500]})
+		// a value whose rendering is one line of more than 64 KiB (line-buffer limits)
+		huge := strings.Repeat("y", 70000)
+		out = append(out, map[string]interface{}{"k": "short", "b": 2.0}, map[string]interface{}{"k": huge, "b": 2.0}, []interface{}{1.0, huge, 3.0})
+		// edits at indices where the decimal width changes (9 -> 10, 99 -> 100) or contains a zero
+		for _, n := range []int{12, 21, 102} {
+			a := seq(n)
+			out = append(out, a)
+			for _, at := range []int{9, 10, n - 2} {
+				b := append([]interface{}{}, a...)
+				b[at] = "x"
+				out = append(out, b)
+				out = append(out, append(append([]interface{}{}, a[:at]...), a[at+1:]...))
+				c := append(append([]interface{}{}, a[:at]...), "ins")
+				out = append(out, append(c, a[at:]...))
+			}
+		}
+		// runs of equal elements (head / tail overlap), long arrays with duplicates edited in place
+		for _, n := range []int{16, 17, 20, 66} {
+			z := make([]interface{}, n)
+			for i := range z {
+				z[i] = 0.0
+			}
+			out = append(out, z)
+		}
+		for _, n := range []int{20, 70} {
+			a := seq(n)
+			run := append(append(append([]interface{}{}, a[:5]...), 7.0, 7.0, 7.0), a[5:]...)
+			out = append(out, run, append(append(append([]interface{}{}, a[:5]...), 7.0, 7.0, 7.0, 7.0), a[5:]...))
+			d := make([]interface{}, n)
+			for i := range d {
+				d[i] = float64(i % 3)
+			}
+			e := append([]interface{}{}, d...)
+			e[n/2] = "w"
+			out = append(out, e, append(append([]interface{}{}, d[1:]...), d[0]))
+			dup := append(append([]interface{}{7.0}, a...), 7.0)
+			out = append(out, dup, append(append([]interface{}{}, a...), 7.0))
+		}
+		out = append(out, seq(2), seq(0))
+		// same length beyond 64 elements: an insertion in front of duplicate runs, one duplicate dropped
+		for _, p := range [][2][]interface{}{{{"z", "z", "v", "v"}, {"w", "z", "z", "v"}}, {{7.0, 7.0, 8.0, 8.0}, {9.0, 7.0, 7.0, 8.0}}} {
+			out = append(out, append(append([]interface{}{}, p[0]...), seq(70)...), append(append([]interface{}{}, p[1]...), seq(70)...))
+		}
+		// same length, every element shifted by one position (rotation), beyond 64 elements
+		rot := append(append([]interface{}{}, seq(70)[1:]...), 0.0)
+		out = append(out, rot)
+		// many keys, deep chains of objects and of arrays, beyond powers of two up to 128
+		for _, n := range []int{70, 130} {
+			o := map[string]interface{}{}
+			o2 := map[string]interface{}{}
+			for i := 0; i < n; i++ {
+				o[fmt.Sprintf("k%03d", i)] = float64(i)
+				o2[fmt.Sprintf("k%03d", i)] = float64(i)
+			}
+			o2["k001"] = "changed"
+			delete(o2, "k002")
+			out = append(out, o, o2)
+		}
+		for _, depth := range []int{40, 110} {
+			for _, leaf := range []V{map[string]interface{}{"x": 1.0, "z": 2.0}, map[string]interface{}{"x": 2.0, "z": 2.0}, map[string]interface{}{"z": 2.0, "y": 1.0}} {
+				var v V = ref.Clone(leaf)
+				for i := 0; i < depth; i++ {
+					v = map[string]interface{}{"k": v}
+				}
+				out = append(out, map[string]interface{}{"x": 1.0, "k": v}, map[string]interface{}{"x": 2.0, "k": v})
+			}
+			for _, leaf := range []V{[]interface{}{1.0, 2.0, 3.0}, []interface{}{1.0, 4.0, 3.0}} {
+				var v V = ref.Clone(leaf)
+				for i := 0; i < depth; i++ {
+					v = []interface{}{v}
+				}
+				out = append(out, v)
+			}
+		}
 		members := func(change int) []interface{} {
 			m := make([]interface{}, 20)
 			for i := range m {
